@@ -316,12 +316,33 @@ pub fn run(ctx: &crate::RunCtx) -> (Summary, Vec<Violation>) {
     // the previous case executed by this child, with everything needed to run it again
     let mut prev: Option<(Case, std::sync::Arc<Comp>, std::sync::Arc<BitModel>, std::sync::Arc<Vec<u8>>)> = None;
     for idx in 0..ctx.count as usize {
-        let item = corpus::build(ctx.seed, idx);
+        let Some(item) = corpus::try_build(ctx.seed, idx) else {
+            continue;
+        };
         if ctx.child == 0 {
             corpus::kinds(&item, &mut sum.probes);
         }
-        for (name, comp) in components(&item) {
+        let comps = match pan::catch(|| components(&item)) {
+            Ok(c) => c,
+            Err(_) => {
+                *sum.probes.entry("components_unbuildable_skipped".into()).or_default() += 1;
+                continue;
+            }
+        };
+        for (name, comp) in comps {
             let comp = std::sync::Arc::new(comp);
+            // a component whose clean write fails or panics cannot be swept; skipped and counted
+            let clean_ok = on_fresh_thread(|| {
+                pan::catch(|| {
+                    let mut s = ByteSink::new();
+                    comp.write(&mut s).is_ok()
+                })
+                .unwrap_or(false)
+            });
+            if !clean_ok {
+                *sum.probes.entry("component_clean_write_fails_skipped".into()).or_default() += 1;
+                continue;
+            }
             let (cb, nbits) = on_fresh_thread(|| clean_bits(&comp));
             let clean = std::sync::Arc::new(BitModel::from_bytes(&cb, nbits));
             let cb = std::sync::Arc::new(cb);
@@ -410,6 +431,10 @@ pub fn run(ctx: &crate::RunCtx) -> (Summary, Vec<Violation>) {
         let n = corpus::INCONSISTENT.load(std::sync::atomic::Ordering::Relaxed);
         if n > 0 {
             sum.probes.insert("corpus_copy_serialises_differently".into(), n);
+        }
+        let u = corpus::UNBUILDABLE.load(std::sync::atomic::Ordering::Relaxed);
+        if u > 0 {
+            sum.probes.insert("corpus_item_unbuildable_skipped".into(), u);
         }
     }
     (sum, viols)
